@@ -80,7 +80,7 @@ struct Explorer {
 
     mutable long curParent = -1;
     void stateOracles(World& w, const WSnap& s, Sink& sink, Stats& st, FILE* dig) const {
-        if (orc.c05) inv_C05(s.o, sink);
+        if (orc.c05) inv_C05(s.o, sink, !s.loadedRoot);
         if (orc.c11) { C11Stats cs; sweep_C11(w, s, sink, cs); st.lookups += cs.lookups; }
         if (orc.c01) { ProbeStats ps; probe_C01(w, s, sink, ps); st.probes01 += ps.probed; st.skipped01 += ps.skipped; }
         if (orc.c03) { ProbeStats ps; probe_C03(w, s, sink, ps); st.probes03 += ps.probed; st.skipped03 += ps.skipped; }
